@@ -1,7 +1,7 @@
 """C18 - compaction never loses or overwrites live data.
 
 spec/Compaction.tla: property-level predicates (CompactOK, PlanOK, ArchOK) + code-shaped machines
-(validate_spans / extract_compact_segment / compact_in_place chunk loop; plan_archive_merge greedy loop).
+(validate_spans / extract_compact_segment / compact_in_place chunk loop; move_data chunk loop; plan_archive_merge greedy loop).
 MC_Compaction: every input of a bounded space is an initial state; the code-shaped machine is stepped to
 completion; TLC checks the forward-copy lemma on every state and the property-level predicates on final
 states, and prints every input as a program (binding G).  drv_compaction executes the programs on the real
@@ -14,9 +14,9 @@ from . import lib
 MODULE_MC = "MC_Compaction"
 MODULE_T = "T_Compaction"
 DRV = "drv_compaction"
-INVS = ["SegLemma", "SegFinal", "SegBufIndep", "PlanSafe", "PlanNoChain", "Emit"]
+INVS = ["SegLemma", "SegFinal", "SegBufIndep", "PlanSafe", "PlanNoChain", "MoveFinal", "Emit"]
 STAT_KEYS = ["compact_ok", "compact_refused", "moved_spans", "plans", "plans_nonempty", "plan_model_agrees",
-             "plan_chained", "arch", "arch_compacted"]
+             "plan_chained", "arch", "arch_compacted", "moves", "moves_chunked"]
 
 
 # --------------------------------------------------------------------------- known findings
@@ -55,6 +55,8 @@ def nontrivial(p):
         return p["n"] >= 1 and any(len(o["spans"]) >= 1 for o in p["ops"])
     if k == "plan":
         return any(len(o["segs"]) >= 2 for o in p["ops"])
+    if k == "move":
+        return any(o["len"] >= 1 for o in p["ops"])
     return k == "arch"
 
 
@@ -228,17 +230,23 @@ def selftest(ctx, trace, kd):
     ic, e = find(lambda e: e["op"] == "plan" and len(e["res"].get("moves", [])) >= 2)
     e["res"]["moves"][-1][3] -= 1
     lc = list(lines); lc[ic] = json.dumps(e, separators=(",", ":"))
+    # (a4) a moved unit that did not arrive
+    ie, e = find(lambda e: e["op"] == "move" and e["res"].get("ok") and e["len"] >= 1)
+    e["obs"]["dst"][e["dst"]] = -1
+    le = list(lines); le[ie] = json.dumps(e, separators=(",", ":"))
     # (b) drop one event inside a run
     idx = next(i for i, l in enumerate(lines) if i > 20 and not lib.is_new(l) and i + 1 < len(lines) and not lib.is_new(lines[i + 1])
                and (i + 2) not in bad)
     ld = list(lines); del ld[idx]
-    files = [write("selftest_a1.ndjson", la), write("selftest_a2.ndjson", lb), write("selftest_a3.ndjson", lc), write("selftest_b.ndjson", ld)]
-    with ThreadPoolExecutor(max_workers=4) as ex:
-        va, vb, vc, vd = list(ex.map(lambda f: lib.tlc_trace(ctx, MODULE_T, cfg, f), files))
+    files = [write("selftest_a1.ndjson", la), write("selftest_a2.ndjson", lb), write("selftest_a3.ndjson", lc),
+             write("selftest_b.ndjson", ld), write("selftest_a4.ndjson", le)]
+    with ThreadPoolExecutor(max_workers=5) as ex:
+        va, vb, vc, vd, ve = list(ex.map(lambda f: lib.tlc_trace(ctx, MODULE_T, cfg, f), files))
     b = set(base["violations"])
     res = {"corrupt_file_projection_flagged": (ia + 1) in va["violations"] and (ia + 1) not in b,
            "corrupt_bytes_saved_flagged": (ib + 1) in vb["violations"] and (ib + 1) not in b,
            "corrupt_plan_move_flagged": (ic + 1) in vc["violations"] and (ic + 1) not in b,
+           "corrupt_moved_unit_flagged": (ie + 1) in ve["violations"] and (ie + 1) not in b,
            "drop_one_event_flagged": (idx + 1) in vd["violations"]}
     ctx.cov["binding_selftest"] = res
     if not all(res.values()):
@@ -254,13 +262,15 @@ def run(ctx):
     if ctx.quick:
         plan = [("seq", dict(Family='"seq"', N=6, K=3, Bufs="{1, 2, 3}", Geo=0)),
                 ("set", dict(Family='"set"', N=8, Bufs="{1, 2, 3}", Geo=1)),
-                ("plan", dict(Family='"plan"', MaxSeg=4, MaxUsed=5, SegSize=4))]
+                ("move", dict(Family='"move"', N=5, Bufs="{1, 2, 3}", Geo=1)),
+                ("plan", dict(Family='"plan"', MaxSeg=4, MaxUsed=4, SegSize=4))]
         nrand, narch = 900, 40
     else:
         plan = [("seq", dict(Family='"seq"', N=7, K=3, Bufs="{1, 2, 3}", Geo=0)),
                 ("seq_big_units", dict(Family='"seq"', N=4, K=3, Bufs="{1, 2, 3}", Geo=1)),
                 ("set", dict(Family='"set"', N=10, Bufs="{1, 2, 3}", Geo=2)),
                 ("set_buf4", dict(Family='"set"', N=9, Bufs="{4}", Geo=2)),
+                ("move", dict(Family='"move"', N=6, Bufs="{1, 2, 3, 4}", Geo=2)),
                 ("plan", dict(Family='"plan"', MaxSeg=5, MaxUsed=4, SegSize=4)),
                 ("plan_size3", dict(Family='"plan"', MaxSeg=4, MaxUsed=4, SegSize=3, PlanUnit=1000)),
                 ("plan_frozen6", dict(Family='"plan"', MaxSeg=6, MaxUsed=5, SegSize=5, PlanUnit=4096, States='{"F"}'))]
@@ -285,7 +295,7 @@ def run(ctx):
     total += n
     distinct += dn
     ls = lib.read_lines(trace)
-    for want in ('"kind":"seg"', '"kind":"plan"'):
+    for want in ('"kind":"seg"', '"kind":"plan"', '"kind":"move"'):
         i = next((i for i, l in enumerate(ls) if lib.is_new(l) and want in l and i > len(ls) // 3), None)
         if i is not None:
             s, e = lib.run_of_line(ls, i + 1)
@@ -300,7 +310,7 @@ def run(ctx):
             raise
         ctx.cov["binding_selftest"] = {"skipped": str(ex)}
     # anti-vacuity: the interesting branches were really exercised on the real code
-    for k in ("compact_ok", "compact_refused", "moved_spans", "plans_nonempty", "arch"):
+    for k in ("compact_ok", "compact_refused", "moved_spans", "plans_nonempty", "arch", "moves_chunked"):
         if not totals.get(k):
             raise lib.ToolError(f"vacuous run: no event of class {k}")
     ctx.cov["event_classes"] = totals
@@ -317,7 +327,7 @@ def run(ctx):
     ctx.cov["distinct_nontrivial"] = distinct
     ctx.cov["exhaustive"] = True
     ctx.cov["exhaustive_scope"] = ("per family, every input within the listed bounds (stages[].constants): all span sequences / all disjoint "
-                                   "span sets x 3 input orders x buffer geometries; all segment populations x 4 thresholds. "
+                                   "span sets x 3 input orders x buffer geometries; all move_data calls within the bounds; all segment populations x 4 thresholds. "
                                    "The random tier and ArchiveManager::compact are sampled, not exhaustive")
     ctx.assumptions += [
         "TLC, the CommunityModules Json reader and the driver's projection of a file onto unit numbers (self-describing pattern blocks, compared byte for byte with the original unit) are trusted",
@@ -329,4 +339,4 @@ def run(ctx):
     return lib.finish(ctx, "model_checking",
                       rule="programs = inputs enumerated by TLC from MC_Compaction (every initial state of the bounded space prints its input) plus seeded random programs; "
                            "distinct = distinct program texts (md5) over the whole run; non-trivial = a segment program with a non-empty file and at least one span, "
-                           "a plan program with at least two segments, or an archive program")
+                           "a plan program with at least two segments, a move program that moves at least one unit, or an archive program")
